@@ -20,8 +20,8 @@ theorem logged_only_if_opted_in (q : Req) (e : Entry) (h : (serve q).log = some 
 
 def exProf : Prof := ⟨[112], true, false⟩
 def exReq : Req :=
-  { port0 := false, dev := .ok exProf [100], globBlockIP := false, globBlockHost := false, profBlock := false,
-    rlDrop := false, special := false, debug := false, adWanted := false, ctxErr := false, upErr := false,
+  { port0 := false, dev := .ok exProf [100], globBlockIP := false, globBlockHost := false, profBlock := false, badECS := false,
+    rlDrop := false, profRl := 0, special := false, debug := false, adWanted := false, ctxErr := false, upErr := false,
     writeErr := false, reqRes := ⟨.blocked, [108], [109]⟩, respRes := FRes.nil, blockErr := false, name := [97, 46],
     qtype := 1, proto := 8, remoteIP := [49], reqId := [117], startMs := 5, elapsedMs := 0, loc := some ([82, 85], 7),
     orig := ⟨0, false, .addr⟩, blockedResp := ⟨0, false, .unspec⟩, modResp := ⟨0, false, .none⟩, geoCtry := [85, 83] }
@@ -45,10 +45,11 @@ example : ((serve exReq).bill.map (·.dev)) = some [100] ∧
 
 /-- The query was not attributed (anonymous, authentication failure, unknown dedicated address,
 lookup error) or it was dropped (spoofed port, rate limiter) or access-blocked (globally by address
-or by name, or by the profile's access settings). -/
+or by name, or by the profile's access settings, or by the profile's own or the global rate limiter on
+plain DNS), or it carried a malformed ECS option and was answered FORMERR. -/
 def NotServedForProfile (q : Req) : Prop :=
   q.dev.data = none ∨ q.port0 = true ∨ q.globBlockIP = true ∨ q.globBlockHost = true ∨ q.profBlock = true ∨
-    q.rlDrop = true
+    rlDropEff q = true ∨ q.badECS = true
 
 /-- **anonymous_dropped_blocked_never_logged.** Such queries produce neither a log entry nor a
 billing record. -/
@@ -58,19 +59,21 @@ theorem anonymous_dropped_blocked_never_logged (q : Req) (h : NotServedForProfil
   · cases hl : (serve q).log with
     | none => rfl
     | some e =>
-      obtain ⟨p, d, h1, _, _, _, _, h6, h7, h8, h9, h10, _⟩ := serve_log_inv q e hl
+      obtain ⟨p, d, h1, _, _, _, _, h6, h7, h8, h9, hbe, h10, _⟩ := serve_log_inv q e hl
       unfold NotServedForProfile at h
       simp_all [DevRes.data]
   · cases hb : (serve q).bill with
     | none => rfl
     | some b =>
-      obtain ⟨p, d, h1, _, _, h6, h7, h8, h9, h10⟩ := serve_bill_inv q b hb
+      obtain ⟨p, d, h1, _, _, h6, h7, h8, h9, hbe, h10⟩ := serve_bill_inv q b hb
       unfold NotServedForProfile at h
       simp_all [DevRes.data]
 
 example : NotServedForProfile { exReq with dev := .authFail } ∧ NotServedForProfile { exReq with rlDrop := true } ∧
     NotServedForProfile { exReq with profBlock := true } ∧ (serve { exReq with profBlock := true }).resp = none := by
-  refine ⟨by simp [NotServedForProfile, DevRes.data], by simp [NotServedForProfile], by simp [NotServedForProfile], by decide⟩
+  refine ⟨by simp [NotServedForProfile, DevRes.data], ?_, by simp [NotServedForProfile], by decide⟩
+  unfold NotServedForProfile
+  exact Or.inr (Or.inr (Or.inr (Or.inr (Or.inr (Or.inl (by decide))))))
 
 /-- **entry_describes_request.** The entry's name, type, protocol, request ID and time are the
 request's own; its verdicts are the results the filter returned for this request (no response
@@ -84,12 +87,12 @@ theorem entry_describes_request (q : Req) (e : Entry) (h : (serve q).log = some 
     (∀ a, e.ip = some a → a = q.remoteIP) ∧
     (∀ r, (serve q).resp = some r → r.rcode = e.rcode) ∧
     q.debug = false ∧ q.ctxErr = false ∧ q.upErr = false ∧ q.special = false := by
-  obtain ⟨p, d, hd, hq, _, _, _, h6, h7, h8, h9, h10, h11, h12, h13, h14, h15, h16, h17, h18, h19, h20, h21, h22, h23⟩ :=
+  obtain ⟨p, d, hd, hq, _, _, _, h6, h7, h8, h9, hbe, h10, h11, h12, h13, h14, h15, h16, h17, h18, h19, h20, h21, h22, h23⟩ :=
     serve_log_inv q e h
   refine ⟨h15, h16, h17, h21, h22, h18, h19, h20, h23, ?_, h12, h13, h14, h11⟩
   intro r hr
   rw [h20]
-  simp only [serve, h6, h7, h8, h9, h10, h11, hd, initialmw, mainmw, h12, h13, h14, record, DevRes.data, hq] at hr
+  simp only [serve, h6, h7, h8, h9, hbe, h10, h11, hd, initialmw, mainmw, h12, h13, h14, record, DevRes.data, hq] at hr
   split at hr
   · simp at hr
   · simp at hr
@@ -118,13 +121,10 @@ theorem result_code_table (req resp : FRes) :
 
 example : resultData FRes.nil ⟨.blocked, [108], [109]⟩ = (3, [108], [109]) := by decide
 
-/-- **line_integrity_partial.** For every entry, whatever bytes its strings contain (quotes, line
+/-- **line_is_one_line.** For every entry, whatever bytes its strings contain (quotes, line
 feeds, invalid UTF-8, ...), the encoded record is `{ … }` followed by exactly one line feed, and
-no byte before that line feed is a control character (< 0x20): the record is exactly one line.
-PARTIAL: that the text between the braces is a well-formed JSON object (every quote and backslash
-inside a string escaped) is checked by decoding every real and model line in the harness, not
-proved. -/
-theorem line_integrity_partial (e : Entry) (rn : Nat) :
+no byte before that line feed is a control character (< 0x20): the record is exactly one line. -/
+theorem line_is_one_line (e : Entry) (rn : Nat) :
     ∃ body, encodeLine e rn = body ++ [10] ∧ (∀ c ∈ body, 32 ≤ c) ∧ body.head? = some 123 ∧
       body.getLast? = some 125 := by
   refine ⟨renderObj (fieldsOf e rn), rfl, renderObj_ge _ (fieldsOf_keys e rn), ?_, ?_⟩
@@ -188,7 +188,7 @@ theorem file_splits_into_records (J : Jobs) (ops : List (Nat × Option Nat)) :
     | cons i r ih =>
       intro hl
       obtain ⟨job, _, hline⟩ := hl i (by simp)
-      obtain ⟨body, hb, hge, _, _⟩ := line_integrity_partial job.1 job.2
+      obtain ⟨body, hb, hge, _, _⟩ := line_is_one_line job.1 job.2
       have hne : ∀ c ∈ body, c ≠ 10 := fun c hc => by have := hge c hc; omega
       simp only [List.map_cons, List.flatten_cons, List.cons_append]
       rw [hline, hb, List.append_assoc]
@@ -197,6 +197,163 @@ theorem file_splits_into_records (J : Jobs) (ops : List (Nat × Option Nat)) :
       simp
   exact key _ hjobs
 
+/-- **line_integrity.** (full; replaces the former `_partial`.)  An independent strict reader of
+one-line flat JSON objects (`lexLine`: strings end at the first unescaped quote, only legal escapes,
+no raw control bytes, members separated by commas, one closing brace, one line feed, nothing after
+it) accepts every encoded record, for every entry and all byte strings in it, and reads back
+exactly the members that were encoded, in order: nothing a name, rule or ID contains can end a
+string early, forge a member or split the record. -/
+theorem line_integrity (e : Entry) (rn : Nat) :
+    lexLine (encodeLine e rn) = some ((fieldsOf e rn).map tokOf) :=
+  lexLine_render (fieldsOf e rn) (fieldsOf_ne e rn) (fieldsOf_clean e rn)
+
+/-- Non-vacuity: a hostile name that tries to close the string and forge an `ip` member is read
+back as one `n` member; the reader rejects the same text when it is not escaped. -/
+example : lexLine (encodeLine { exEntry with ip := none, name := [34, 44, 34, 105, 112, 34, 58, 34, 54] } 7) =
+      some ((fieldsOf { exEntry with ip := none, name := [34, 44, 34, 105, 112, 34, 58, 34, 54] } 7).map tokOf) ∧
+    lexLine [123, 34, 110, 34, 58, 34, 10, 34, 125, 10] = none ∧
+    lexLine [123, 34, 110, 34, 58, 34, 97, 34, 125, 10] = some [([110], .str [97])] := by
+  refine ⟨line_integrity _ _, by decide, by decide⟩
+
+/-- **line_ip_member_iff.** What a reader of the line sees: it has an `ip` member exactly when the
+entry carries a client address, and then its value is that address. -/
+theorem line_ip_member_iff (e : Entry) (rn : Nat) (toks : List (Str × Tok))
+    (h : lexLine (encodeLine e rn) = some toks) :
+    (∀ t, ([105, 112], t) ∈ toks ↔ ∃ a, e.ip = some a ∧ t = .str (esc a)) := by
+  rw [line_integrity] at h
+  simp only [Option.some.injEq] at h
+  subst h
+  intro t
+  cases hip : e.ip with
+  | none =>
+    simp [fieldsOf, hip, optStr, optNum, tokOf]
+    repeat' split
+    all_goals simp
+  | some a =>
+    simp [fieldsOf, hip, optStr, optNum, tokOf]
+    intro h
+    rcases h with ⟨x, ⟨_, rfl⟩, hk, _⟩ | ⟨x, ⟨_, rfl⟩, hk, _⟩ | ⟨x, ⟨_, rfl⟩, hk, _⟩ | ⟨x, ⟨_, rfl⟩, hk, _⟩ |
+      ⟨x, ⟨_, rfl⟩, hk, _⟩
+    all_goals simp at hk
+
+/-- **line_describes_request.** The line a reader sees carries this entry's name, type, response
+code, documented result code, protocol, profile and device under the documented keys (and list
+and rule when there is a verdict with texts). -/
+theorem line_describes_request (e : Entry) (rn : Nat) (toks : List (Str × Tok))
+    (h : lexLine (encodeLine e rn) = some toks) :
+    ([110], Tok.str (esc e.name)) ∈ toks ∧ ([113], Tok.num (intDigits e.qtype)) ∈ toks ∧
+    ([114], Tok.num (intDigits e.rcode)) ∈ toks ∧
+    ([102], Tok.num (intDigits (resultData e.reqRes e.respRes).1)) ∈ toks ∧
+    ([112], Tok.num (intDigits e.proto)) ∈ toks ∧ ([98], Tok.str (esc e.prof)) ∈ toks ∧
+    ([105], Tok.str (esc e.dev)) ∈ toks ∧
+    ((resultData e.reqRes e.respRes).2.2 ≠ [] → ([109], Tok.str (esc (resultData e.reqRes e.respRes).2.2)) ∈ toks) ∧
+    ((resultData e.reqRes e.respRes).2.1 ≠ [] → ([108], Tok.str (esc (resultData e.reqRes e.respRes).2.1)) ∈ toks) := by
+  rw [line_integrity] at h
+  simp only [Option.some.injEq] at h
+  subst h
+  simp [fieldsOf, optStr, optNum, tokOf]
+  constructor <;> intro h <;> simp [h]
+
+/-- **served_line_privacy.** End to end on the model: when a query is logged for a profile with IP
+logging off, a reader of the resulting line finds no `ip` member at all, whatever the random number
+and the bytes of the other fields are. -/
+theorem served_line_privacy (q : Req) (e : Entry) (rn : Nat) (p : Prof) (d : Str)
+    (hl : (serve q).log = some e) (hd : q.dev = .ok p d) (hoff : p.iplog = false)
+    (toks : List (Str × Tok)) (h : lexLine (encodeLine e rn) = some toks) :
+    ∀ t, ([105, 112], t) ∉ toks := by
+  obtain ⟨p', d', hd', _, hip, _⟩ := logged_only_if_opted_in q e hl
+  rw [hd] at hd'
+  cases hd'
+  intro t ht
+  obtain ⟨a, ha, _⟩ := (line_ip_member_iff e rn toks h t).mp ht
+  have := hip (by simp [ha])
+  simp [hoff] at this
+
+example : ∃ toks, lexLine (encodeLine ((serve exReq).log.getD exEntry) 3) = some toks ∧ ∀ t, ([105, 112], t) ∉ toks :=
+  ⟨_, line_integrity _ _, served_line_privacy exReq _ 3 exProf [100] (by decide) rfl rfl _ (line_integrity _ _)⟩
+
+/-- Queries that reach the main middleware's recording step. -/
+def Served (q : Req) : Prop :=
+  q.port0 = false ∧ q.globBlockIP = false ∧ q.globBlockHost = false ∧ q.profBlock = false ∧ q.badECS = false ∧
+    rlDropEff q = false ∧ q.special = false ∧ q.ctxErr = false ∧ q.upErr = false ∧ q.debug = false
+
+/-- **bill_iff.** Exact characterisation (a reference monitor, not a restatement of `record`): a
+billing record exists if and only if the query is attributed to a profile and was served. -/
+theorem bill_iff (q : Req) :
+    (serve q).bill.isSome = true ↔ ∃ p d, q.dev = .ok p d ∧ Served q := by
+  constructor
+  · intro h
+    cases hb : (serve q).bill with
+    | none => simp [hb] at h
+    | some b =>
+      obtain ⟨p, d, h1, _, _, h6, h7, h8, h9, hbe, h10⟩ := serve_bill_inv q b hb
+      refine ⟨p, d, h1, h6, h7, h8, h9, hbe, h10, ?_⟩
+      simp only [serve, h6, h7, h8, h9, hbe, h10, h1] at hb
+      by_cases hs : q.special = true
+      · simp [hs] at hb
+      · simp only [hs, initialmw, mainmw] at hb
+        by_cases he : q.ctxErr = true ∨ q.upErr = true
+        · simp [he] at hb
+        · by_cases hdg : q.debug = true
+          · simp [he, hdg] at hb
+          · simp_all
+  · rintro ⟨p, d, hd, h1, h2, h3, h4, h5, h6, h7, h8, h9, h10⟩
+    simp only [serve, hd, h1, h2, h3, h4, h5, h6, h7, h8, h9, h10, initialmw, mainmw, record, DevRes.data]
+    by_cases hq : p.qlog = true <;> simp [hq]
+
+/-- **log_iff.** A log entry exists if and only if the query is attributed to a profile with query
+logging enabled and was served (not dropped, blocked, malformed, special, failed or debug). -/
+theorem log_iff (q : Req) :
+    (serve q).log.isSome = true ↔ ∃ p d, q.dev = .ok p d ∧ p.qlog = true ∧ Served q := by
+  constructor
+  · intro h
+    cases hl : (serve q).log with
+    | none => simp [hl] at h
+    | some e =>
+      obtain ⟨p, d, hd, hq, _, _, _, h6, h7, h8, h9, hbe, h10, h11, h12, h13, h14, _⟩ := serve_log_inv q e hl
+      exact ⟨p, d, hd, hq, h6, h7, h8, h9, hbe, h10, h11, h13, h14, h12⟩
+  · rintro ⟨p, d, hd, hq, h1, h2, h3, h4, h5, h6, h7, h8, h9, h10⟩
+    simp [serve, hd, h1, h2, h3, h4, h5, h6, h7, h8, h9, h10, initialmw, mainmw, record, DevRes.data, hq]
+
+example : Served exReq ∧ (serve exReq).log.isSome = true ∧ ¬ Served { exReq with profRl := 2 } := by
+  refine ⟨⟨rfl, rfl, rfl, rfl, rfl, by decide, rfl, rfl, rfl, rfl⟩, by decide, ?_⟩
+  intro h
+  exact absurd h.2.2.2.2.2.1 (by decide)
+
+/-- **unidentified_never_logged.** Through the device finder: whatever the profile database
+answers, a query on a protocol that cannot carry a device ID (DNSCrypt), for a deleted profile, or
+from a device that fails authentication produces neither a log entry nor a billing record. -/
+theorem unidentified_never_logged (q : Req) (l : Lookup) (hdev : q.dev = findDevice (supportsDeviceID q.proto) l)
+    (h : supportsDeviceID q.proto = false ∨ (∃ p d a, l = .found p d true a) ∨ (∃ p d x, l = .found p d x false)) :
+    (serve q).log = none ∧ (serve q).bill = none := by
+  apply anonymous_dropped_blocked_never_logged
+  left
+  rw [hdev]
+  rcases h with h | ⟨p, d, a, rfl⟩ | ⟨p, d, x, rfl⟩
+  · simp [findDevice, h, DevRes.data]
+  · simp only [findDevice]; split <;> simp [DevRes.data]
+  · simp only [findDevice]; split
+    · simp [DevRes.data]
+    · cases x <;> simp [DevRes.data]
+
+example : findDevice (supportsDeviceID 9) (.found exProf [100] false true) = .anon ∧
+    findDevice (supportsDeviceID 3) (.found exProf [100] false true) = .ok exProf [100] ∧
+    findDevice (supportsDeviceID 8) (.found exProf [100] true true) = .anon := by decide
+
+/-- **file_lines_all_read.** Concurrency and integrity together: under every schedule, every record
+in the file (one per appended request, in append order, `file_is_lines`) is accepted by the
+independent reader and reads back as that request's own members. -/
+theorem file_lines_all_read (J : Jobs) (ops : List (Nat × Option Nat)) :
+    let s := FS.run J {} ops
+    s.file = (s.order.map (lineOf J)).flatten ∧
+      ∀ i ∈ s.order, ∃ job, J i = some job ∧ lexLine (lineOf J i) = some ((fieldsOf job.1 job.2).map tokOf) := by
+  intro s
+  obtain ⟨hf, _, _, hjobs⟩ := file_is_lines J ops
+  refine ⟨hf, ?_⟩
+  intro i hi
+  obtain ⟨job, hj, hline⟩ := hjobs i hi
+  exact ⟨job, hj, by rw [hline]; exact line_integrity _ _⟩
+
 end Agd.Record
 
 #print axioms Agd.Record.logged_only_if_opted_in
@@ -204,7 +361,15 @@ end Agd.Record
 #print axioms Agd.Record.anonymous_dropped_blocked_never_logged
 #print axioms Agd.Record.entry_describes_request
 #print axioms Agd.Record.result_code_table
-#print axioms Agd.Record.line_integrity_partial
+#print axioms Agd.Record.line_is_one_line
 #print axioms Agd.Record.esc_no_control_bytes
 #print axioms Agd.Record.file_is_lines
 #print axioms Agd.Record.file_splits_into_records
+#print axioms Agd.Record.line_integrity
+#print axioms Agd.Record.line_ip_member_iff
+#print axioms Agd.Record.line_describes_request
+#print axioms Agd.Record.served_line_privacy
+#print axioms Agd.Record.bill_iff
+#print axioms Agd.Record.log_iff
+#print axioms Agd.Record.unidentified_never_logged
+#print axioms Agd.Record.file_lines_all_read
